@@ -2264,7 +2264,9 @@ static long double eval_double(Node *node) {
 // However, if a given expression is of form `A.x op= C`, the input is
 // converted to `tmp = &A, (*tmp).x = (*tmp).x op C` to handle assignments
 // to bitfields.
-static Node *to_assign(Node *binary) {
+// If `fetch_old` is set and A is atomic, the value of the expression is
+// the value A held immediately before the update (postfix ++ and --).
+static Node *to_assign2(Node *binary, bool fetch_old) {
   add_type(binary->lhs);
   add_type(binary->rhs);
   Token *tok = binary->tok;
@@ -2302,6 +2304,9 @@ static Node *to_assign(Node *binary) {
   //   } while (!atomic_compare_exchange_strong(addr, &old, new));
   //   new;
   // })
+  //
+  // A successful exchange leaves `old` as it was, so `old` is the value
+  // that was replaced.
   if (binary->lhs->ty->is_atomic) {
     Node head = {};
     Node *cur = &head;
@@ -2348,7 +2353,8 @@ static Node *to_assign(Node *binary) {
     loop->cond = new_unary(ND_NOT, cas, tok);
 
     cur = cur->next = loop;
-    cur = cur->next = new_unary(ND_EXPR_STMT, new_var_node(new, tok), tok);
+    cur = cur->next = new_unary(ND_EXPR_STMT,
+                                new_var_node(fetch_old ? old : new, tok), tok);
 
     Node *node = new_node(ND_STMT_EXPR, tok);
     node->body = head.next;
@@ -2371,6 +2377,10 @@ static Node *to_assign(Node *binary) {
                tok);
 
   return new_binary(ND_COMMA, expr1, expr2, tok);
+}
+
+static Node *to_assign(Node *binary) {
+  return to_assign2(binary, false);
 }
 
 // assign    = conditional (assign-op assign)?
@@ -3067,10 +3077,9 @@ static Node *new_inc_dec(Node *node, Token *tok, int addend) {
   add_type(node);
 
   // An atomic object is updated by the compare-and-swap loop of
-  // to_assign(). Convert A++ to `(typeof A)((A += 1) - 1)`.
+  // to_assign2(), which yields the value it replaced.
   if (node->ty->is_atomic)
-    return new_cast(new_add(to_assign(new_add(node, new_num(addend, tok), tok)),
-                            new_num(-addend, tok), tok),
+    return new_cast(to_assign2(new_add(node, new_num(addend, tok), tok), true),
                     node->ty);
 
   // The old value cannot in general be recomputed from the new one:
